@@ -352,6 +352,15 @@ func c01Garbage(rnd *rand.Rand, per, nRandom int) (res [][2]any) {
 		rnd.Read(b)
 		add("random", b)
 	}
+	// byte strings longer than the plain-DNS server's datagram buffer (512 octets by default): over UDP
+	// only the head of such a datagram is seen; whatever is made of it, the listener stays up
+	for _, n := range []int{513, 600, 1400} {
+		b := make([]byte, n)
+		rnd.Read(b)
+		b[2] &^= 0x80                   // a query, so that it is not simply ignored as a response
+		b[4], b[5] = 0xff, 0xff         // more questions than any message can carry: never decodable
+		add("random", b)
+	}
 	return res
 }
 
@@ -517,6 +526,22 @@ func TestVerifC01Sock(t *testing.T) {
 	// resolvers and browsers use the stream transports (a DoQ client sends its FIN in a later frame than
 	// the data; a TCP client one query after the other).  Every one of them is an accepted query.
 	nReuse := vhEnvInt("VERIF_REUSE", 130)
+	// ... and clients that half-close the connection right after their query (shutdown(SHUT_WR), TLS
+	// close_notify) and then wait for the answer, which takes the handler a moment
+	for _, tr := range []string{"tcp", "dot"} {
+		const nHalf = 12
+		got := 0
+		for i := 0; i < nHalf; i++ {
+			if c01HalfClose(l, tr, i) {
+				got++
+			}
+		}
+		ev := &dnsserver.C01Event{Ev: "Reuse", Src: "sock", T: tr, Gen: "halfclose", Kind: "resp", N: got, H: "writes", Probe: "na",
+			Key: fmt.Sprintf("%d %s connections half-closed by the client right after a query whose answer takes 60 ms", nHalf, tr),
+			More: []string{}, Items: []dnsserver.C01Item{}}
+		ev.Cnt = nHalf
+		out.Emit(ev)
+	}
 	for _, tr := range []string{"tcp", "dot", "doh", "doq"} {
 		got := c01Reuse(l, tr, nReuse)
 		ev := &dnsserver.C01Event{Ev: "Reuse", Src: "sock", T: tr, Gen: "reuse", Kind: "resp", N: got, H: "writes", Probe: "na",
@@ -726,4 +751,43 @@ func c01Reuse(l *vlab, tr string, n int) (answered int) {
 		}
 	}
 	return answered
+}
+
+// c01HalfClose sends one query, closes the sending direction and reports whether the query's own
+// answer arrives nevertheless.
+func c01HalfClose(l *vlab, tr string, i int) bool {
+	m := new(dns.Msg).SetQuestion(fmt.Sprintf("slow%d.c01.example.", i), dns.TypeA)
+	m.Id = uint16(30000 + i)
+	b, _ := m.Pack()
+	var c net.Conn
+	var err error
+	if tr == "tcp" {
+		c, err = net.DialTimeout("tcp", l.tcp.String(), 2*time.Second)
+	} else {
+		c, err = tls.DialWithDialer(&net.Dialer{Timeout: 2 * time.Second}, "tcp", l.dot.String(), l.tlsConf.Clone())
+	}
+	if err != nil {
+		return false
+	}
+	defer c.Close()
+	if _, err = c.Write(append(binary.BigEndian.AppendUint16(nil, uint16(len(b))), b...)); err != nil {
+		return false
+	}
+	switch cc := c.(type) {
+	case *net.TCPConn:
+		_ = cc.CloseWrite()
+	case *tls.Conn:
+		_ = cc.CloseWrite()
+	}
+	_ = c.SetReadDeadline(time.Now().Add(3 * time.Second))
+	var ln uint16
+	if binary.Read(c, binary.BigEndian, &ln) != nil {
+		return false
+	}
+	raw := make([]byte, ln)
+	if _, err = io.ReadFull(c, raw); err != nil {
+		return false
+	}
+	r := new(dns.Msg)
+	return r.Unpack(raw) == nil && r.Id == m.Id && len(r.Question) == 1 && r.Question[0] == m.Question[0]
 }
